@@ -288,6 +288,9 @@ Eval(sc, i, t) ==
   IN
   CASE n.op = "num" -> ScalarRes(NumVal(n))
 
+    \* a constant vector per step (used by Distribute.tla for the results of remote engines)
+    [] n.op = "const" -> n.tbl[t]
+
     [] n.op = "sel" ->
          LET ref == RefTime(sc, n, t)
              js  == Matching(sc, n)
